@@ -172,7 +172,7 @@ class Layout:
                  "harness_setup_dir", "tool_log_prefix harness_setup_dir",
                  "forallb (wf_loc harness_setup_dir) %s" % clist(
                      ["(%s %s)" % (c, cb(p)) for c, p in EXTRA_POOL])]
-        r = vplib.coq_eval(ctx, REQ, exprs, name="layout")
+        r = coq_eval_retry(ctx, exprs, name="layout")
         tos = lambda l: bytes(l).decode()
         self.path = dict(zip(FIXED, [tos(x) for x in r[0]]))
         self.backup_dir = tos(r[1])
@@ -215,24 +215,28 @@ def model_cmd(args, accepts_restore_arg):
 
 
 def model_expr(sc, lay, accepts):
-    keys = sorted(sc["files"], key=lambda k: (k not in FIXED, k))
+    keys = model_keys(sc)
     files = clist(["(%s, (%d%%N, %s))" % (lay.coq_loc(k), sc["files"][k][0], cb(sc["files"][k][1])) for k in keys],
                   "(loc * file)")
-    watch = "(fixed_locs ++ %s)" % clist([lay.coq_loc("X%d" % i) for i in sc["extras"]], "loc")
+    watch = clist([lay.coq_loc("X%d" % i) for i in sc["extras"]], "loc")
     cmds = clist([model_cmd(c, accepts) for c in sc["cmds"]], "cmd")
-    return "run_obs standin_runnable %s %s (mk_world %s %s %s)" % (watch, cmds, files, cbool(sc["running"]), cbool(sc["enabled"]))
+    return "run_scenario %s %s %s %s %s" % (files, watch, cbool(sc["running"]), cbool(sc["enabled"]), cmds)
+
+
+def model_keys(sc):
+    return sorted(sc["files"], key=lambda k: (k not in FIXED, k))
 
 
 def model_steps(sc, lay, res):
     """parsed run_obs output -> list of dict(rc, files{path:[mode,sha]}, running, enabled, events)"""
     watch = FIXED + ["X%d" % i for i in sc["extras"]]
+    pool = [[sc["files"][k][0], sha(sc["files"][k][1])] for k in model_keys(sc)]
     out = []
     for rc, (obs, running, enabled), events in res:
         files = {}
         for k, o in zip(watch, obs):
             if o is not None:
-                _, (mode, data) = o
-                files[lay.render(k)] = [mode, sha(bytes(data))]
+                files[lay.render(k)] = pool[o[1]] if o[1] < len(pool) else [-1, "unknown file"]
         out.append({"rc": rc, "files": files, "running": running, "enabled": enabled, "events": events})
     return out
 
@@ -412,11 +416,26 @@ def compare(sc, lay, msteps, impl):
 def execute(ctx, scenarios, lay, binary, accepts, with_model=True):
     inputs = [runner_input(sc, lay, binary) for sc in scenarios]
     impl = run_impl(ctx, inputs)
+    ctx.log("implementation: %d scenarios executed" % len(impl))
     if not with_model:
         return impl, [None] * len(scenarios)
     exprs = [model_expr(sc, lay, accepts) for sc in scenarios]
-    mres = vplib.coq_eval(ctx, REQ, exprs, shard=max(10, len(exprs) // 14 + 1), timeout=1500, name="runs")
+    mres = coq_eval_retry(ctx, exprs, shard=max(10, len(exprs) // 16 + 1), timeout=2400, name="runs")
+    ctx.log("model: %d scenarios evaluated" % len(mres))
     return impl, mres
+
+
+def coq_eval_retry(ctx, exprs, **kw):
+    """vplib.coq_eval; when another check rebuilt a shared .vo underneath us (coqc: "makes
+    inconsistent assumptions"), rebuild our cone and evaluate again"""
+    for attempt in range(4):
+        try:
+            return vplib.coq_eval(ctx, REQ, exprs, **kw)
+        except RuntimeError as e:
+            if attempt == 3 or "inconsistent assumptions" not in str(e):
+                raise
+            ctx.log("coqc saw a concurrently rebuilt library; rebuilding the cone and retrying")
+            vplib.coq_make(ctx, ["Props/C17.vo"])
 
 
 def probe_restore_arg(ctx, lay, binary):
@@ -446,7 +465,7 @@ def run(ctx):
     accepts = probe_restore_arg(ctx, lay, binary)
     ctx.log("binary accepts `restore false`:", accepts)
 
-    nseq = 150 if ctx.quick else 2500
+    nseq = 300 if ctx.quick else 3000
     scenarios = [gen_scenario(rng, i) for i in range(nseq)]
     try:
         impl, mres = execute(ctx, scenarios, lay, binary, accepts, with_model)
